@@ -23,6 +23,7 @@ structure NsOut where
   keys : Check.BKI
 
 structure Output where
+  locales : List Str
   namespaced : Bool
   nss : List NsOut
   warnings : List Warning
@@ -161,6 +162,6 @@ def run (inp : Input) : Res Output :=
     match checkAll inp w.nss ws with
     | .err e => .err e
     | .panic p => .panic p
-    | .ok (outs, ws') => .ok ⟨w.namespaced, outs, ws'⟩
+    | .ok (outs, ws') => .ok ⟨inp.cfg.locales, w.namespaced, outs, ws'⟩
 
 end I18nVerif.Pipeline
